@@ -471,14 +471,71 @@ fn roundtrip(m: &dr::Module, log: &[String], version: Option<(u8, u8)>, r: &mut 
 /// EARLIER function, with case literals of the selector's width; extended instructions of every number of an
 /// imported set (any of the known and near-miss set names) with 0..5 id operands; structured control flow with
 /// line-debug info between the merge instruction and the terminator.
-fn idiom(rng: &mut Rng, idx: u64) -> (dr::Module, Vec<String>) {
+fn idiom(rng: &mut Rng, idx: u64) -> (dr::Module, Vec<String>, Vec<(u32, &'static str, Vec<Operand>)>) {
     use rspirv::spirv::{FunctionControl, LoopControl, SelectionControl};
     let d = crate::gram::db();
     let mut log: Vec<String> = vec![];
+    // (id the call returned, opcode, operands the call's arguments denote)
+    let mut requested: Vec<(u32, &'static str, Vec<Operand>)> = vec![];
     let mut b = Builder::new();
     let void = b.type_void();
     let fnty = b.type_function(void, vec![]);
-    match idx % 4 {
+    match idx % 5 {
+        4 => {
+            // declarations that are prefixes / extensions / permutations of one another: a struct {a, b} and a
+            // struct {a}, a function type with one parameter more, a float type with and without an encoding,
+            // arrays that differ in the length only -- every request carries ITS arguments
+            let a = b.type_int(32, 0);
+            let f = b.type_float(32, None);
+            let len = b.constant_bit32(a, 4);
+            let pool = [a, f, void, len];
+            log.push("prefix-related type requests".to_string());
+            for _ in 0..rng.range(2, 7) {
+                let n = rng.range(1, 4);
+                let members: Vec<u32> = (0..n).map(|_| *rng.pick(&pool[..3])).collect();
+                let cut = rng.below(n + 1);
+                let variants: [Vec<u32>; 3] = [members.clone(), members[..cut].to_vec(), members.iter().rev().cloned().collect()];
+                for (vi, v) in variants.iter().enumerate() {
+                    if vi > 0 && rng.chance(1, 3) {
+                        continue;
+                    }
+                    match rng.below(4) {
+                        0 => {
+                            let id = b.type_struct(v.clone());
+                            log.push(format!("type_struct({:?}) -> {}", v, id));
+                            requested.push((id, "TypeStruct", v.iter().map(|x| Operand::IdRef(*x)).collect()));
+                        }
+                        1 => {
+                            let id = b.type_function(f, v.clone());
+                            log.push(format!("type_function({}, {:?}) -> {}", f, v, id));
+                            requested.push((id, "TypeFunction", std::iter::once(f).chain(v.iter().cloned()).map(Operand::IdRef).collect()));
+                        }
+                        2 => {
+                            let elem = v.first().cloned().unwrap_or(f);
+                            let l = if vi == 1 { len } else { a };
+                            let id = b.type_array(elem, l);
+                            log.push(format!("type_array({}, {}) -> {}", elem, l, id));
+                            requested.push((id, "TypeArray", vec![Operand::IdRef(elem), Operand::IdRef(l)]));
+                        }
+                        _ => {
+                            let w = *rng.pick(&[16u32, 32, 64]);
+                            let enc = if vi == 1 { None } else { Some(rspirv::spirv::FPEncoding::Max) };
+                            let id = b.type_float(w, enc);
+                            log.push(format!("type_float({}, {:?}) -> {}", w, enc, id));
+                            let mut ops = vec![Operand::LiteralBit32(w)];
+                            if let Some(e) = enc {
+                                ops.push(Operand::FPEncoding(e));
+                            }
+                            requested.push((id, "TypeFloat", ops));
+                        }
+                    }
+                }
+            }
+        }
+        _ => {}
+    }
+    match idx % 5 {
+        4 => {}
         0 => {
             let widths = [(64u32, true), (64, true), (32, false), (16, false), (8, false)];
             let (w, two) = widths[rng.below(widths.len())];
@@ -644,7 +701,7 @@ fn idiom(rng: &mut Rng, idx: u64) -> (dr::Module, Vec<String>) {
         }
     }
     log.push("module()".into());
-    (b.module(), log)
+    (b.module(), log, requested)
 }
 
 pub fn run(cfg: &Cfg, rep: &mut Report) {
@@ -680,11 +737,21 @@ pub fn run(cfg: &Cfg, rep: &mut Report) {
         let rp = || crate::util::replay_ref(cfg, "idioms", idx);
         let built = catch(|| idiom(rng, idx));
         match built {
-            Ok((m, log)) => {
+            Ok((m, log, requested)) => {
                 r.seen("idioms", log.first().map(|s| s.split(',').next().unwrap_or("").split('(').next().unwrap_or("").to_string()).unwrap_or_default());
+                for (id, opname, ops) in &requested {
+                    let decl = m.types_global_values.iter().find(|i| i.result_id == Some(*id));
+                    if decl.map(|i| i.class.opname != *opname || i.operands != *ops).unwrap_or(true) {
+                        r.violation(format!("C06:request-not-carried:{}", opname), format!("a request for Op{} {:?} returned id {}, which the module declares as {:?}\nhistory: {}", opname, ops, id, decl, log.join("; ")), rp());
+                        return;
+                    }
+                }
+                if !requested.is_empty() {
+                    r.count("prefix_related_requests", requested.len() as u64);
+                }
                 roundtrip(&m, &log, None, r, &rp);
             }
-            Err(p) => r.violation(format!("C06:panic:idiom:{}", crate::util::panic_key(&p)), format!("a Builder call of an idiom (kind {}) panicked or failed: {}", idx % 4, p.msg), rp()),
+            Err(p) => r.violation(format!("C06:panic:idiom:{}", crate::util::panic_key(&p)), format!("a Builder call of an idiom (kind {}) panicked or failed: {}", idx % 5, p.msg), rp()),
         }
     });
     let _ = Operand::IdRef(0);
